@@ -32,6 +32,8 @@ enum Source {
     /// user-written counting closure yielding 1..=n, logging 100+i on the i-th pull
     Counter(i64),
     Array(Vec<V>),
+    /// user-written closure over an int array, logging 100+i on the i-th pull
+    Logged(Vec<i64>),
 }
 
 #[derive(Clone, Copy, Debug, PartialEq)]
@@ -63,6 +65,7 @@ enum Consumer {
 
 const PRELUDE: &str = "log := mut [int] [];
 counter := (n: int) -> () -> (bool, int) { i := mut 0; return () -> (bool, int) { log += [100 + *i]; if *i < n { i += 1; return (true, *i) }; return (false, 0) } };
+lsrc := (a: [int]) -> () -> (bool, int) { i := mut 0; return () -> (bool, int) { log += [100 + *i]; if *i < std.len(a) { i += 1; return (true, a[*i - 1]) }; return (false, 0) } };
 f1 := (x: int) -> int { log += [200 + x]; return x + 10 };
 f2 := (x: int) -> int { log += [200 + x]; return x * 2 };
 p1 := (x: int) -> bool { log += [300 + x]; return x > 1 };
@@ -95,6 +98,15 @@ impl RefIter {
                 if self.pos < a.len() {
                     self.pos += 1;
                     Some(a[self.pos - 1].clone())
+                } else {
+                    None
+                }
+            }
+            Source::Logged(a) => {
+                log.push(100 + self.pos.min(a.len()) as i64);
+                if self.pos < a.len() {
+                    self.pos += 1;
+                    Some(V::I(a[self.pos - 1]))
                 } else {
                     None
                 }
@@ -247,13 +259,20 @@ fn reference(source: &Source, stages: &[Stage], consumer: Consumer, pulls: usize
             format!("({})", out.join(", "))
         }
     };
-    (result, log)
+    let result = if consumer == Consumer::Manual && pulls == 1 { format!("({result}, 0)") } else { result };
+    // what the consumer left in the source (nothing, unless it may stop early)
+    let mut rest = Vec::new();
+    while let Some(x) = it.pull_level(0, &mut log) {
+        rest.push(x);
+    }
+    (format!("({result}, {})", list(&rest)), log)
 }
 
 fn source_text(s: &Source) -> String {
     match s {
         Source::Counter(n) => format!("counter({n})"),
         Source::Array(a) => format!("[{}]~", a.iter().map(V::lit).collect::<Vec<_>>().join(", ")),
+        Source::Logged(a) => format!("lsrc([{}])", a.iter().map(|i| i.to_string()).collect::<Vec<_>>().join(", ")),
     }
 }
 
@@ -302,6 +321,8 @@ fn program(source: &Source, stages: &[Stage], consumer: Consumer, pulls: usize, 
         }
     };
     text.push_str(&body);
+    // then drain the source: only a consumer that may stop early leaves anything in it
+    text.push_str("\nr := (r, s0 $]);");
     if twice {
         // the same function value evaluated twice, then the same loop body evaluated twice
         text.push_str("\nreturn r };\nr1 := once(); r2 := once();\nseen := mut [any] []; k := mut 0; while *k < 2 { k += 1; seen += [once()] };\n((r1, r2, *seen), *log)");
@@ -310,6 +331,10 @@ fn program(source: &Source, stages: &[Stage], consumer: Consumer, pulls: usize, 
     }
     text
 }
+
+/// element alphabet of the int sources: the absorbing elements of `*` / `&` (0) and of `|` (-1)
+/// are in it, so a reduction that stops at one of them leaves elements behind
+const INTS: [i64; 4] = [0, 1, 2, -1];
 
 struct Job {
     source: Source,
@@ -339,17 +364,33 @@ fn jobs(thorough: bool) -> Vec<Job> {
     let mut sources: Vec<Source> = (0..=3).map(Source::Counter).collect();
     let max_len = 3;
     for len in 0..=max_len {
-        let n = 3usize.pow(len as u32);
+        let n = INTS.len().pow(len as u32);
         for k in 0..n {
             let mut kk = k;
             let a: Vec<V> = (0..len)
                 .map(|_| {
-                    let v = V::I([1, 2, 3][kk % 3]);
-                    kk /= 3;
+                    let v = V::I(INTS[kk % INTS.len()]);
+                    kk /= INTS.len();
                     v
                 })
                 .collect();
             sources.push(Source::Array(a));
+        }
+    }
+    // the same sequences through a user-written source that logs every pull
+    let logged_len = if thorough { 3 } else { 2 };
+    for len in 0..=logged_len {
+        let n = INTS.len().pow(len as u32);
+        for k in 0..n {
+            let mut kk = k;
+            let a: Vec<i64> = (0..len)
+                .map(|_| {
+                    let v = INTS[kk % INTS.len()];
+                    kk /= INTS.len();
+                    v
+                })
+                .collect();
+            sources.push(Source::Logged(a));
         }
     }
     let int_consumers = [
@@ -360,6 +401,7 @@ fn jobs(thorough: bool) -> Vec<Job> {
         let n = match s {
             Source::Counter(n) => *n as usize,
             Source::Array(a) => a.len(),
+            Source::Logged(a) => a.len(),
         };
         for p in &pipelines {
             for c in int_consumers {
@@ -480,7 +522,6 @@ pub fn run(tier: &str) -> i32 {
         } else {
             (want_r, want_log)
         };
-        let want_r = if j.consumer == Consumer::Manual && j.pulls == 1 { format!("({want_r}, 0)") } else { want_r };
         let want = format!("({want_r}, [{}])", want_log.iter().map(|x| x.to_string()).collect::<Vec<_>>().join(", "));
         acc.programs += 1;
         acc.events += want_log.len() as u64;
@@ -519,7 +560,7 @@ pub fn run(tier: &str) -> i32 {
                 }
             };
             acc.violations.push(Violation {
-                sig: format!("C11|{what}|source={}|stages={}|consumer={:?}", match &j.source { Source::Counter(_) => "counter", Source::Array(_) => "array" }, stages.join(" "), j.consumer),
+                sig: format!("C11|{what}|source={}|stages={}|consumer={:?}", match &j.source { Source::Counter(_) => "counter", Source::Array(_) => "array", Source::Logged(_) => "logged" }, stages.join(" "), j.consumer),
                 detail: json!({"kind": "program", "stdlib": true, "text": text, "expected": want, "observed": got}),
             });
         }
@@ -551,7 +592,7 @@ pub fn run(tier: &str) -> i32 {
         "samples": samples.items,
         "exhaustive": true,
         "rule": "every (source, pipeline of <= 2 (thorough 3) lazy stages, consumer) is printed to SimpleSL and run; the result and the merged event trace (source pulls, f x, p x, g x) must equal those of a pull-based list reference; manual pulls go 2 past exhaustion",
-        "bounds": "sources: counting closure n = 0..3, int arrays of length 0..3 over {1,2,3}, mixed arrays of length <= 2 (thorough 3) over {1, 2, \"s\", true}",
+        "bounds": "sources: counting closure n = 0..3, int arrays of length 0..3 over {0,1,2,-1}, the same through a pull-logging closure (length <= 2, thorough 3); after every consumer the source is drained and the rest compared, mixed arrays of length <= 2 (thorough 3) over {1, 2, \"s\", true}",
     });
     report.finish("model_checking", coverage, &["the second tuple component after exhaustion is not compared here (C01 judges it)"])
 }
